@@ -11,7 +11,3 @@ Lemma times_former_wrap_witness :
   bits_of_f (i2f 16440948372290153 * i2f 561)%float = float_of_int 9223372036854774784.
 Proof. vm_compute. repeat split. Qed.
 
-(* a * b fits but the double product exceeds the threshold: a float where the exact int fits (documented heuristic) *)
-Lemma times_float_when_fits_witness :
-  exists a b f, in64 a = true /\ in64 b = true /\ in64 (a * b) = true /\ eval_bin OTimes (NInt a) (NInt b) = RFloat f.
-Proof. exists 9223372036854775807, 1, (i2f 9223372036854775807). vm_compute. repeat split. Qed.
